@@ -64,6 +64,71 @@ let do_term ops =
     | _ -> ()) ops;
   pr "\n"
 
+
+(* ---- second part: tables (CapDefs2.v) ---- *)
+let ints_of s = if s = "-" then [] else List.map int_of_string (String.split_on_char ',' s)
+let show_ints l = if l = [] then "-" else String.concat "," (List.map string_of_int l)
+
+let do_regx hex =
+  match rEG (bytes_of_hex hex) with Ok c -> pr "%d\n" (int_of_z c) | e -> pr "%s\n" (err_name e)
+
+let do_reg c lnnl pre =
+  let pre = ints_of pre in
+  let present i = List.mem (int_of_z i) pre in
+  match reg_put present (z_of_int c) (lnnl <> 0) with
+  | Ok l -> pr "%s\n" (show_ints (List.sort_uniq compare (pre @ List.map int_of_z l)))
+  | e -> pr "%s\n" (err_name e)
+
+let do_get c pre =
+  let pre = ints_of pre in
+  match reg_get (fun i -> List.mem (int_of_z i) pre) (z_of_int c) with
+  | Ok b -> pr "%d\n" (if b then 1 else 0)
+  | e -> pr "%s\n" (err_name e)
+
+let do_mark m =
+  let m = z_of_int m in
+  match lbuf_mark m, lbuf_jump (fun _ -> true) m true with
+  | Ok l, Ok (Some i) -> pr "%d 0 5 7 %s\n" (int_of_z (markidx m)) (show_ints (List.sort_uniq compare (List.map int_of_z l)))
+  | Ok l, Ok None -> pr "%d 1 -1 -1 %s\n" (int_of_z (markidx m)) (show_ints (List.sort_uniq compare (List.map int_of_z l)))
+  | (Ok _, e) -> pr "%s\n" (err_name e)
+  | (e, _) -> pr "%s\n" (err_name e)
+
+let path_arg w = if w = "-" then None else if w = "e" then Some [] else Some (bytes_of_hex w)
+let do_pexp clamp sp cur alt hex =
+  match ex_pathexpand_gen (path_arg cur) (path_arg alt) (sp <> 0) clamp (bytes_of_hex hex) with
+  | Ok None -> pr "null\n"
+  | Ok (Some s) -> pr "%s\n" (hex_of_bytes s)
+  | e -> pr "%s\n" (err_name e)
+
+let show_tab t = String.concat "" (List.map (fun b -> if b then "1" else "0") t)
+let do_bufs last ops =
+  let t = ref b_init in
+  let dead = ref false in
+  List.iter (fun o ->
+    if not !dead then begin
+      let op = match o.[0] with
+        | 'o' -> (match bufs_findroom_gen (z_of_int last) !t with Ok i -> pr "%d:" (int_of_z i) | e -> pr "%s:" (err_name e)); BOpen
+        | 's' -> BSwitch (z_of_int (int_of_string (String.sub o 1 (String.length o - 1))))
+        | _ -> BShift in
+      match b_run_gen (z_of_int last) !t [op] with
+      | Ok t' -> t := t'; pr "%s " (show_tab t')
+      | e -> pr "%s " (err_name e); dead := true
+    end) ops;
+  pr "\n"
+
+(* vi_buf: r = vi_read, b = vi_back; answers shape-ok and the pending count after every call *)
+let do_vibuf ops =
+  let l = List.map (fun o -> if o = "b" then VBack else VRead) ops in
+  pr "%s " (if back_after_read false l then "shaped" else "unshaped");
+  (match vb_run Z0 l with Ok n -> pr "%d\n" (int_of_z n) | e -> pr "%s\n" (err_name e))
+
+let do_render strict ctx cbeg cend cols =
+  let cols = List.map (fun c -> match String.split_on_char ':' c with
+                                | [p; w] -> (z_of_int (int_of_string p), z_of_int (int_of_string w)) | _ -> (Z0, Z0)) cols in
+  match led_render_off (z_of_int ctx) (z_of_int cbeg) (z_of_int cend) strict cols with
+  | Ok off -> pr "%s\n" (show_ints (List.map int_of_z off))
+  | e -> pr "%s\n" (err_name e)
+
 let () =
   iter_lines (fun l ->
     match words l with
@@ -74,4 +139,15 @@ let () =
     | ["plus"; h] -> do_scan plus h
     | ["cut"; h] -> do_scan cutword h
     | "term" :: ops -> do_term ops
+    | ["regx"; h] -> do_regx h
+    | ["reg"; c; lnnl; pre] -> do_reg (int_of_string c) (int_of_string lnnl) pre
+    | ["get"; c; pre] -> do_get (int_of_string c) pre
+    | ["mark"; m] -> do_mark (int_of_string m)
+    | ["pexp"; sp; cur; alt; h] -> do_pexp true (int_of_string sp) cur alt h
+    | ["pexp-noclamp"; sp; cur; alt; h] -> do_pexp false (int_of_string sp) cur alt h
+    | "bufs" :: ops -> do_bufs 1 ops
+    | "bufs-nolast" :: ops -> do_bufs 0 ops
+    | "vibuf" :: ops -> do_vibuf ops
+    | "rendermodel" :: strict :: ctx :: cbeg :: cend :: cols ->
+      do_render (strict <> "0") (int_of_string ctx) (int_of_string cbeg) (int_of_string cend) cols
     | _ -> pr "?\n")
